@@ -102,10 +102,14 @@ def contractionFlattenRed : Rule
 
 /-- branch 6b, same reduction twice: `Contraction(red, null, vars, Contraction(red, vbin, vvars, vterms)) ↦
     Contraction(red, vbin, vars ∪ vvars, vterms)` (executable model, tied to the code by the harness; its
-    soundness needs `red` associative-commutative and the binders distinct — not proved here). -/
+    sound when `red` is total and associative and the two binder lists are distinct names — the freshness side
+    condition that KF-shared-binder-unfold violates; the model declines otherwise). -/
+def disjointNames (vs ws : List (Name × Dom)) : Bool := vs.all fun v => !(ws.map (·.1)).contains v.1
+
 def contractionFuseSameRed : Rule
   | Term.contraction red "null" vars [Term.contraction vred vbin vvars vts] =>
-    if vred != "null" && red != "null" && vred == red then some (Term.contraction red vbin (vars ++ vvars) vts)
+    if vred != "null" && red != "null" && vred == red && disjointNames vars vvars
+    then some (Term.contraction red vbin (vars ++ vvars) vts)
     else none
   | _ => none
 
@@ -168,12 +172,48 @@ def reduceUnrelated : Rule
     | some m =>
       match op with
       | "add" => some (Term.binary ⟨"mul", Sexp.list []⟩ a (Term.num (XR.fin (m : Rat)) DType.real))
-      | "mul" => some (Term.binary ⟨"pow", Sexp.list []⟩ a (Term.num (XR.fin (m : Rat)) DType.real))
       | "max" => some a
       | "min" => some a
-      | "and" => none   -- the implementation returns `x`, which differs from `and`-folding unless x is boolean
-      | "or" => none
-      | _ => none
+      | _ => none   -- and / or: the implementation returns `x`, equal to the fold only on booleans
+  | _ => none
+
+/-- the `mul` case of `_reduce_unrelated_vars`: `Reduce(mul, x, absent) ↦ x ** |absent|`
+    (`PRODUCT_TO_POWER[mul] = pow`; the term language's `pow` is defined on finite values only). -/
+def reduceUnrelatedMul : Rule
+  | Term.reduce "mul" a vars =>
+    if vars.isEmpty || vars.any (fun v => a.fv.contains v.1) then none else
+    match multiplicity vars with
+    | none => none
+    | some 0 => none
+    | some m => some (Term.binary ⟨"pow", Sexp.list []⟩ a (Term.num (XR.fin (m : Rat)) DType.real))
+  | _ => none
+
+/-! ### funsor/cnf.py: eager Contraction rules that re-dispatch to Reduce / Binary -/
+
+/-- `eager_contraction_to_reduce`: `Contraction(red, bin, vars, term)` is evaluated as `Reduce(red, term, vars)`. -/
+def contractionToReduce : Rule
+  | Term.contraction red _ vars [t] =>
+    if assocOps.contains red then some (Term.reduce red t vars) else none
+  | _ => none
+
+/-- `eager_contraction_to_binary`: `Contraction(red, bin, vars, lhs, rhs)` is evaluated as
+    `Reduce(red, Binary(bin, lhs, rhs), vars)` (just `Binary(bin, lhs, rhs)` when nothing is reduced). -/
+def contractionToBinary : Rule
+  | Term.contraction red bin vars [l, r] =>
+    if !assocOps.contains bin then none
+    else if vars.isEmpty then
+      (if red == "null" || assocOps.contains red then some (Term.binary ⟨bin, Sexp.list []⟩ l r) else none)
+    else if assocOps.contains red then some (Term.reduce red (Term.binary ⟨bin, Sexp.list []⟩ l r) vars)
+    else none
+  | _ => none
+
+/-- `normalize_fuse_subs`: `Subs(Subs(a, σ₁), σ₂) ↦ Subs(a, σ₂ ++ [(k, Subs(v, σ₂)) for (k, v) in σ₁])`.
+    The keys of σ₂ are inputs of `Subs(a, σ₁)`; the model requires them distinct from the keys of σ₁ (a key of
+    σ₁ re-introduced by a value of σ₁ would be shadowed differently in the two orders). -/
+def subsFuseNormalize : Rule
+  | Term.subs (Term.subs a σ₁) σ₂ =>
+    if σ₂.any (fun p => (σ₁.map (·.1)).contains p.1) then none
+    else some (Term.subs a (σ₂ ++ σ₁.map (fun (k, v) => (k, Term.subs v σ₂))))
   | _ => none
 
 /-! ### Rule table (names used on the wire by the harness) -/
@@ -185,7 +225,9 @@ def ruleTable : List (String × Rule) :=
    ("contractionFlattenBin", contractionFlattenBin), ("contractionFlattenRed", contractionFlattenRed),
    ("contractionFuseSameRed", contractionFuseSameRed),
    ("subsFuse", subsFuse), ("numberBinary", numberBinary), ("numberUnary", numberUnary),
-   ("lambdaGetitem", lambdaGetitem), ("stackSelect", stackSelect), ("reduceUnrelated", reduceUnrelated)]
+   ("lambdaGetitem", lambdaGetitem), ("stackSelect", stackSelect), ("reduceUnrelated", reduceUnrelated),
+   ("reduceUnrelatedMul", reduceUnrelatedMul), ("contractionToReduce", contractionToReduce),
+   ("contractionToBinary", contractionToBinary), ("subsFuseNormalize", subsFuseNormalize)]
 
 def ruleByName (n : String) : Option Rule := ruleTable.lookup n
 
